@@ -364,6 +364,25 @@ impl TCheck for C07 {
     fn prepare(&self, seed: u64, _tier: Tier, work: u64, scratch: &Path) -> Prepared {
         let mut rng = Rng::derive(seed, "c07-work", work);
         let logical = reader_logical(&mut rng, &[Comp::Zstd(3), Comp::Lz4(3), Comp::Lzma(1), Comp::Zstd(3)]);
+        // one work in eight holds a compressed cluster far larger than any codec's input buffer
+        // (40..300 KiB of incompressible bytes, hint Yes): its decoder job fetches the stored bytes
+        // in many reads, between which other readers load other clusters from the same file
+        let big = work % 8 == 6;
+        let mut logical = logical;
+        if big {
+            let len = rng.range(40 * 1024, 300 * 1024) as usize;
+            let at = rng.usize_below(logical.contents.len() + 1);
+            let pack = logical.contents.first().map(|c| c.pack).unwrap_or(1);
+            logical.contents.insert(
+                at,
+                gen::ContentSpec {
+                    bytes: Arc::new(gen::gen_bytes(&mut rng, 9999, len, gen::Flavor::Random)),
+                    hint: gen::Hint::Yes,
+                    src: SrcKind::Cursor,
+                    pack,
+                },
+            );
+        }
         let create_knobs = vec![
             ("creator_workers", 2u64),
             ("cluster_max_blobs", rng.range(1, 6)),
@@ -374,7 +393,7 @@ impl TCheck for C07 {
         let hooks = crate::exec::current_hooks();
         let image = Arc::new(build_image(&hooks, logical.clone(), &dir, &create_knobs, simcore::prng::hash_label(seed, "c07-img", work)));
         let knobs = vec![
-            ("decode_chunk", *rng.pick(&[1u64, 7, 64, 4096])),
+            ("decode_chunk", if big { *rng.pick(&[4096u64, 65536]) } else { *rng.pick(&[1u64, 7, 64, 4096]) }),
             ("cluster_cache", *rng.pick(&[1u64, 2, 3, 40])),
             ("decomp_pool_size", *rng.pick(&[1u64, 2, 8])),
             ("stream_short_read_pm", *rng.pick(&[0u64, 0, 250])),
@@ -382,14 +401,20 @@ impl TCheck for C07 {
         ];
         let readers = rng.range(2, 4) as usize;
         // contents several readers look at simultaneously
-        let hot: Vec<usize> = (0..2).map(|_| rng.usize_below(image.model.contents.len())).collect();
+        let mut hot: Vec<usize> = (0..2).map(|_| rng.usize_below(image.model.contents.len())).collect();
+        if big {
+            // the big content is one of the two that several readers look at simultaneously
+            if let Some(i) = image.model.contents.iter().position(|c| c.bytes.len() >= 40 * 1024) {
+                hot[0] = i;
+            }
+        }
         let ops: Vec<Vec<Op>> = (0..readers)
             .map(|_| {
                 let n = rng.range(4, 12);
                 (0..n).map(|_| gen_op(&mut rng, &image.model, &hot)).collect()
             })
             .collect();
-        let desc = json!({"image": gen::describe(&logical), "readers": readers,
+        let desc = json!({"image": gen::describe(&logical), "readers": readers, "big_compressed_cluster": big,
                           "ops": ops.iter().map(|o| o.iter().map(|x| format!("{x:?}")).collect::<Vec<_>>()).collect::<Vec<_>>(),
                           "hot_contents": hot});
         let ops = Arc::new(ops);
